@@ -14,9 +14,15 @@
    for the single line, offsets of that line) for every j that fits, the type-flag set is exactly the set
    of types seen, and the first-of-type look-up returns the first line of each known type
    (C07_header_block).
-   PARTIAL: lone CR / lone LF line ends and the converse direction (accepted => of that shape) are
-   carried by the render/parse oracle and the correspondence run. *)
-From Sipsp Require Import Harness Classify HdrLine FLineSpec HdrSpec BlockSpec.
+   The converse direction, for every input (TrimSpec.v; ParseHdrLine / ParseHeaders on the generic value
+   path, i.e. without PHdrVals): whatever is accepted has a name that starts at the start offset, is a
+   non-empty run of bytes that are neither white space nor ':', and is followed by SP / HT only up to the
+   colon (C07_accepted_name_and_colon); the value is empty or starts after the colon, and its first and
+   last byte are not white space (C07_accepted_value_is_trimmed).
+   PARTIAL: lone CR / lone LF line ends on the completeness side; on the converse side that the bytes
+   between the colon and the value, and after the value up to the line end, are white space the LWS
+   skipper crosses: render/parse oracle and the correspondence run. *)
+From Sipsp Require Import Harness Classify HdrLine FLineSpec HdrSpec BlockSpec TrimSpec.
 
 Theorem C07_header_line : forall p name wsb lead t1 tl d x,
   nametok name -> name <> [] -> spaces wsb -> spaces lead -> tok t1 -> t1 <> [] -> good_tail tl -> is_sp d = false ->
@@ -83,3 +89,17 @@ Proof.
   repeat (constructor; [cbn; repeat split; try discriminate; try exact G; repeat constructor; discriminate|]). constructor.
 Qed.
 Print Assumptions C07_header_block.
+
+(* ---- the converse direction, every input -------------------------------------------------------------------------------------------- *)
+Theorem C07_accepted_name_and_colon : forall buf offs o st', offs <= nnat (length buf) ->
+  parse_hdrline buf offs (mkhline hdr0 None) = Done o EOk st' -> name_colon offs buf (hx_h st').
+Proof. exact hdrline_name_colon. Qed.
+Theorem C07_name_and_colon_means : forall a buf h, name_colon a buf h <->
+  po (h_name h) = a /\ 0 < pl (h_name h) /\ brange buf a (pf_end (h_name h)) nmb /\
+  exists cpos, pf_end (h_name h) <= cpos /\ brange buf (pf_end (h_name h)) cpos is_sp /\ nth_error buf (N.to_nat cpos) = Some 58 /\
+    (pl (h_val h) = 0 \/ cpos < po (h_val h)).
+Proof. intros. reflexivity. Qed.
+Theorem C07_accepted_value_is_trimmed : forall buf offs o st', offs <= nnat (length buf) ->
+  parse_hdrline buf offs (mkhline hdr0 None) = Done o EOk st' -> trimmed buf (h_val (hx_h st')).
+Proof. exact hdrline_value_trimmed. Qed.
+Print Assumptions C07_accepted_name_and_colon.
